@@ -136,6 +136,11 @@ class _FormattingNullHandler(__import__("logging").Handler):
             pass
 
 
+# message types the simulator cannot pickle because of its own stand-ins (classes defined inside functions); everything else
+# travels as a pickled copy when scenario['pickle_messages'] is set
+PASSED_BY_REFERENCE = {"DoTask"}  # (function, params) of a track preparation task: the function is a method of the simulator's own processor
+
+
 class SimPool:
     def __init__(self, sim, key):
         self.sim, self.key = sim, key
@@ -691,6 +696,7 @@ class Sim:
         self.client_task = {}       # client id -> name of the task its executor currently runs
         self.client_task_runs = {}  # (client id, task name) -> how often that client has started the task so far
         self.progress_log = []
+        self.unpicklable = {}
         self.rc_docs = []           # every metrics document race control's store has received (stub or real coordinator)
         self.api_keys_created, self.api_keys_deleted = [], []
         self.outage_from = scenario.get("outage_from")  # virtual time from which the cluster is unreachable (persistent)
@@ -821,8 +827,18 @@ class Sim:
         return self.clock + (sh.offset if sh else 0.0)
 
     def post(self, src, dst, msg):
-        self.channels.setdefault((src, dst), collections.deque()).append(msg)
         self.out.append((dst, msg))
+        if self.scenario.get("pickle_messages") and src != dst:
+            # actors live in different processes: what arrives is a pickled copy of what was sent
+            import pickle
+
+            try:
+                msg = pickle.loads(pickle.dumps(msg))
+            except Exception as ex:
+                self.unpicklable[type(msg).__name__] = repr(ex)[:200]
+                if type(msg).__name__ not in PASSED_BY_REFERENCE:
+                    raise
+        self.channels.setdefault((src, dst), collections.deque()).append(msg)
 
     def arm_wakeup(self, key, secs, payload):
         self.wseq += 1
